@@ -55,6 +55,8 @@ def region_oracle(p, its):
             name = ops[int(pc)].split()[0] if int(pc) < len(ops) else "?"
             full.append((t, pc, ret))
             if name == "stop":
+                if not inside:
+                    key.append(("region",))      # where the region sits among the outside events matters
                 inside = True
             if not inside:
                 key.append((t, pc, ret))
